@@ -157,6 +157,8 @@ type Exec struct {
 	builders      int
 	known         map[string]bool
 	ropeLens      map[string]Str
+	par           *parState
+	pathViol      bool
 	curDeferFrame []*frame
 	locks         map[*Val]bool
 	frozenCells   map[*Val]bool
@@ -189,7 +191,9 @@ func (ex *Exec) resetPath(prefix []uint16) {
 	ex.dom = map[int]*byteset{}
 	ex.taint = map[int]bool{}
 	ex.known = map[string]bool{}
+	ex.pathViol = false
 	ex.ropeLens = nil
+	ex.par = nil
 	ex.stack = ex.stack[:0]
 	ex.notes = nil
 	ex.covers = nil
@@ -766,6 +770,7 @@ func (ex *Exec) run(fr *frame, blk *ssa.BasicBlock) Val {
 					ex.gopanic("nil-deref", "invalid memory address or nil pointer dereference (store)")
 				}
 				ex.checkFrozenPtr(p.P)
+				ex.logCell(p.P, true)
 				storeInto(p.P, fr.get(ex, in.Val))
 			case *ssa.FieldAddr:
 				p, ok := fr.get(ex, in.X).(Ptr)
@@ -955,6 +960,7 @@ func (ex *Exec) unop(in *ssa.UnOp, x Val) Val {
 		if !ok || p.P == nil {
 			ex.gopanic("nil-deref", "invalid memory address or nil pointer dereference")
 		}
+		ex.logCell(p.P, false)
 		return copyVal(*p.P)
 	case token.NOT:
 		b := x.(Bool)
@@ -1638,6 +1644,7 @@ func (ex *Exec) mapFind(m *MapObj, key Val) int {
 	if m == nil {
 		return -1
 	}
+	ex.logAccess(m, false)
 	ex.checkHashable(key)
 	for i, k := range m.K {
 		if ex.branch(ex.keyEq(k, key)) {
@@ -1651,6 +1658,7 @@ func (ex *Exec) mapSet(m *MapObj, key, val Val) {
 	if ex.frozen != nil && ex.frozen[m] {
 		ex.frozenViolation("store to a map reachable from the frozen template")
 	}
+	ex.logAccess(m, true)
 	if i := ex.mapFind(m, key); i >= 0 {
 		m.V[i] = copyVal(val)
 		return
@@ -1660,6 +1668,7 @@ func (ex *Exec) mapSet(m *MapObj, key, val Val) {
 }
 
 func (ex *Exec) mapDelete(m *MapObj, key Val) {
+	ex.logAccess(m, true)
 	if i := ex.mapFind(m, key); i >= 0 {
 		m.K = append(append([]Val{}, m.K[:i]...), m.K[i+1:]...)
 		m.V = append(append([]Val{}, m.V[:i]...), m.V[i+1:]...)
@@ -1708,6 +1717,7 @@ func (ex *Exec) mapOrder(m *MapObj) []int {
 	n := 0
 	if m != nil {
 		n = len(m.K)
+		ex.logAccess(m, false)
 	}
 	order := make([]int, n)
 	for i := range order {
